@@ -12,6 +12,7 @@ pub mod c07;
 pub mod c08;
 pub mod c09;
 pub mod c10;
+pub mod c11;
 pub mod c13;
 pub mod c14;
 pub mod c16;
@@ -67,6 +68,7 @@ pub async fn dispatch(prop: &str, ctx: &Ctx, rep: &mut Report) -> bool {
         "C08" => c08::run(ctx, rep).await,
         "C09" => c09::run(ctx, rep).await,
         "C10" => c10::run(ctx, rep).await,
+        "C11" => c11::run(ctx, rep).await,
         "C13" => c13::run(ctx, rep).await,
         "C14" => c14::run(ctx, rep).await,
         "C16" => c16::run(ctx, rep).await,
